@@ -38,12 +38,19 @@ pub struct Net {
     pub log_sizes: HashMap<(Addr, Addr), u64>,
     /// magic number last seen on each directed link (what the receiver knows as the sender's magic)
     pub magic_seen: HashMap<(Addr, Addr), u16>,
+    /// start frame of the first Input packet handed to the network on each directed link, and whether a
+    /// monitor has already looked at it (the input stream to a peer starts at frame 0: C05/C06)
+    pub first_input_start: HashMap<(Addr, Addr), (i32, bool)>,
 }
 
 impl Net {
     pub fn send(&mut self, from: Addr, to: Addr, msg: &Message) {
         self.sent_total += 1;
-        self.magic_seen.insert((from, to), ggrs::verif::msg::view(msg).magic);
+        let mv = ggrs::verif::msg::view(msg);
+        self.magic_seen.insert((from, to), mv.magic);
+        if let ggrs::verif::msg::Body::Input { start_frame, .. } = mv.body {
+            self.first_input_start.entry((from, to)).or_insert((start_frame, false));
+        }
         if self.dead.contains(&from) || self.dead.contains(&to) {
             self.dropped_total += 1;
             return;
